@@ -1,15 +1,15 @@
 SPECIFICATION Spec
 CONSTANTS
-  MaxW = 3
-  MaxRoot = 1
+  MaxW = 4
+  MaxRoot = 2
   MaxMid = 1
-  RootTargets = {"m"}
-  MidTargets = {"a"}
+  RootTargets = {"m", "w", "math"}
+  MidTargets = {"math", "w"}
   Spellings = {"plain"}
-  CfgPool = "basic"
-  ListPool = "full"
-  AccNs = {"", "a", "m", "n"}
+  CfgPool = "pi"
+  ListPool = "pi"
+  AccNs = {"", "m", "w", "n", "math"}
   LawDev = {}
-  AccMembers <- AccMembersFwd
+  AccMembers <- AccMembersPi
 INVARIANTS InvNamespaceOnly InvConfigOnlyDefault InvShowHideComplement InvFilterExact InvBuiltin Emit
 CHECK_DEADLOCK FALSE
